@@ -88,7 +88,7 @@ def same_name_same_kind(v, rng):
 def run(tier, seed, replay=None):
     v = common.Verdict("C11", tier, seed)
     rng = common.rng_for(seed, "C11", tier)
-    n = 800 if tier == "quick" else 20000
+    n = 2400 if tier == "quick" else 20000
     docs = make_docs(rng, n)
     if replay:
         rp = json.load(open(replay))
